@@ -136,6 +136,12 @@ OddKpTexts ==
    <<123,107,92,117,48,48,52,49,125>>, <<123,107,92,117,123,48,48,52,49,125>>, <<123,34,92,117,123,48,48,52,49,34,125>>, <<123,34,92,117,123,48,48,52,49,125,34,125>>,
    <<123,97,92,125>>, <<123,97,92,117,125>>, <<123,92,117,68,56,48,48,125>>, <<123,34,92,117,68,56,48,48,34,125>>, <<123,34,97,92,34,125>>, <<123,49,97,125>>, <<123,97,32,98,125>>,
    <<123,125,125>>, <<123,123,125>>, <<32,123,32,44,32,125>>}
+\* plain (unquoted) names whose bytes run through every UTF-8 continuation byte
+LatinNames == {<<195, b>> : b \in 128..191} \cup {<<228, 189, 160>>, <<240, 159, 152, 133>>, <<226, 128, 168>>}
+EmitLatin == \E n \in LatinNames :
+                \/ Out(KpParse(KeyPathText(<<[n |-> n]>>, Plain), <<[n |-> n]>>))
+                \/ Out(Parse1(PathTextOf(<<Root, Dot(n)>>, Plain, LitFL), <<Root, Dot(n)>>))
+                \/ Out(Parse1(PathTextOf(<<Dot(n), Colon(n)>>, Plain, LitFL), <<Dot(n), Colon(n)>>))
 EmitOdd == (\E t \in OddPathTexts : Out(ParseAny("jp_parse", t))) \/ (\E t \in OddKpTexts : Out(ParseAny("kp_parse", t)))
 
 Init == stage = "start" /\ scr = [op |-> "none"]
@@ -144,7 +150,7 @@ Next ==
   /\ CASE Family = "paths" -> EmitPaths
        [] Family = "pathfaults" -> EmitPathFaults
        [] Family = "soup" -> EmitSoup \/ EmitSoup2 \/ EmitOdd
-       [] Family = "kp" -> EmitKp
+       [] Family = "kp" -> EmitKp \/ EmitLatin
        [] Family = "kpfaults" -> EmitKpFaults
        [] OTHER -> FALSE
 Spec == Init /\ [][Next]_vars
